@@ -4,9 +4,13 @@ Tie: (T) `detect_changing_cause`, the `ChangingRegistry.iter_handlers` gate and 
 re-extracted from the AST on every run and proved equal to the model (Kopf/Tie/C05.lean);
 (D, exhaustive) every combination is pushed through the real `_detect_causes` and `get_handlers`
 (handler shapes: reason x initial x deleted x field_needs_change, i.e. top-level handlers, field handlers
-and sub-handlers); every decision-table row also through the real `process_changing_cause` with handlers
-built by the real decorators and sub-handlers made in kopf's three ways (a sub-handler runs iff its parent
-does: /repo 17e5c42); closed-loop histories, among them deletion handlers with sub-handlers.
+and sub-handlers), under kopf's default finalizer name and a configured one, with look-alike foreign finalizers,
+all six facts constructed by the harness; every decision-table row also through the real `process_changing_cause`
+and the real `process_resource_causes` (finalizer cycles: `invocableRC`) with handlers built by the real decorators
+and sub-handlers made in kopf's four ways (a sub-handler runs iff its parent does: /repo 17e5c42); closed-loop
+histories (`gen_histories`: configured names, foreign finalizers, run-time restored objects, creations while down,
+re-listings before the first handling ends, gaps of the watch next to daemons/timers). White-box review:
+review/wb/C05/NOTES.md.
 """
 from __future__ import annotations
 
@@ -23,7 +27,7 @@ LEVEL = "proof"
 STRENGTH = "full"
 ENGINES = ["lean-model", "pyextract", "purediff", "kopfsim"]
 LEVEL_TEXT = ("Lean theorems (all inputs of the decision table, all handler kinds) about a model that is regenerated from the AST and re-proved equal on every run; the real _detect_causes and get_handlers are additionally enumerated exhaustively against the model and an independent oracle.")
-TIE = "T (AST → Lean, re-proved equal to the model) + D exhaustive over the decision table"
+TIE = "T (AST → Lean, re-proved equal to the model) + D exhaustive over the decision table, also through process_resource_causes"
 THEOREMS = [
     ("Kopf.Props.C05", "Kopf.C05.detect_spec"),
     ("Kopf.Props.C05", "Kopf.C05.exactly_one"),
@@ -46,6 +50,15 @@ THEOREMS = [
     ("Kopf.Props.C05", "Kopf.C05.no_sub_of_create_update_field_on_marked"),
     ("Kopf.Props.C05", "Kopf.C05.old_gate_sub_regression_witness"),
     ("Kopf.Props.C05", "Kopf.C05.old_gate_differs_only_for_subs"),
+    # the whole pass `process_resource_causes` (finalizer cycles between detection and handling)
+    ("Kopf.Props.C05", "Kopf.C05.rc_le"),
+    ("Kopf.Props.C05", "Kopf.C05.rc_sub_le"),
+    ("Kopf.Props.C05", "Kopf.C05.rc_no_create_update_field_on_marked"),
+    ("Kopf.Props.C05", "Kopf.C05.rc_delete_only_while_held"),
+    ("Kopf.Props.C05", "Kopf.C05.rc_none_for_gone_free_noop"),
+    ("Kopf.Props.C05", "Kopf.C05.rc_delete_needs_requirement"),
+    ("Kopf.Props.C05", "Kopf.C05.rc_nothing_before_the_finalizer"),
+    ("Kopf.Props.C05", "Kopf.C05.rc_eq_outside_finalizer_cycles"),
 ]
 TIE_THEOREMS = [
     ("Kopf.Tie.C05", "Kopf.C05.Tie.detect_eq"),
@@ -55,13 +68,20 @@ TIE_THEOREMS = [
     ("Kopf.Tie.C05", "Kopf.C05.Tie.field_gate_on_marked"),
     ("Kopf.Tie.C05", "Kopf.C05.Tie.handler_reasons_eq"),
 ]
-RULE = ("exhaustive: 2 event-type classes x marked x own-finalizer x stored-essence x essential-diff x "
-        "(noticed_by_listing, fully_handled_once) through the real _detect_causes; every handler kind "
+RULE = ("exhaustive: finalizer setting (kopf's default name / a configured one) x 4 event types x marked x own-finalizer x "
+        "stored-essence x essential-diff (in spec / labels / annotations; against noise in status, system metadata and kopf's own "
+        "annotations) x (noticed_by_listing, fully_handled_once) x foreign finalizers (none / plain / look-alikes of the own name, "
+        "among them the unprefixed marker of old kopf versions and, under a configured name, kopf's default name) through the real "
+        "_detect_causes, all six facts constructed by the harness, none read back; every handler kind "
         "(reason x initial x deleted opt-in x field_needs_change: top-level handlers, field handlers AND sub-handler "
         "shapes) x every cause through the real ChangingRegistry.get_handlers; every decision-table row through the "
-        "real _detect_causes + process_changing_cause with handlers built by the real kopf.on decorators, each with "
-        "sub-handlers made by @kopf.subhandler, kopf.register and kopf.execute(fns=); closed-loop histories incl. "
-        "deletion handlers with sub-handlers; a case is non-trivial when it is a distinct (input, output) pair")
+        "real _detect_causes + process_changing_cause AND through the real process_resource_causes (mandatory / optional deletion "
+        "handler: the finalizer cycles) with handlers built by the real kopf.on decorators, each with "
+        "sub-handlers made by @kopf.subhandler, kopf.register, kopf.execute(fns={...}) and kopf.execute(fns=[...]); closed-loop "
+        "histories incl. deletion handlers with sub-handlers, configured finalizer names, foreign finalizers (objects lingering "
+        "released), objects appearing at run time with a stored state, objects created while the operator is down, re-listings "
+        "before the first handling ends, changes inside a gap of the watch, daemons/timers next to the change handlers; "
+        "a case is non-trivial when it is a distinct (input, output) pair")
 TRUSTED = ["pyextract atom vocabulary for causes.detect_changing_cause / ChangingRegistry.iter_handlers",
            "the six booleans are read off real bodies by kopf's own finalizers/diffbase code (exercised, not modelled, here)"]
 ASSUMPTIONS = ["filters (`match`) are C15's subject and appear here as an opaque boolean",
@@ -76,6 +96,13 @@ ASSUMPTIONS = ["filters (`match`) are C15's subject and appear here as an opaque
                "when the parent does (`sub_follows_parent`), in particular the sub-handlers of a deletion handler run in the "
                "deletion cause (/repo 17e5c42; `sub_of_delete_selected`, `sub_of_delete_invocable`); the oracle requires "
                "this in both directions",
+               "between detection and handling `process_resource_causes` dedicates a cycle to the framework's finalizer (to be added: "
+               "required, absent, object not marked; to be removed: not required, present) and runs no change handler in it: modelled "
+               "(`finalizerCycle`, `invocableRC`), tied exhaustively to the real function with a mandatory and with an optional deletion "
+               "handler; its other exits (object pre-matches no handler: C15; inconsistent view: C07) are not modelled here — they only "
+               "suppress handlers, the property's clauses are all of the form 'never invoked unless'",
+               "closed-loop first sight = the object's first cycle in this process came from a listing (event without a type) and no "
+               "handling cycle has ended for it since; an object that first appears through the watch is never at its first sight",
                "the oracle's positive obligations ('must be selected') are stated for the causes detection can produce "
                "(deletion mark <-> delete/free cause, creation never first-sight, resume always first-sight); the negative "
                "ones for every combination the registry function accepts"]
@@ -226,27 +253,76 @@ def _kopf_env():
     return locals()
 
 
-def make_body(settings, marked: bool, blocked: bool, old_absent: bool, diff: bool, variant: int) -> dict:
+DEFAULT_OWN = "kopf.zalando.org/KopfFinalizerMarker"
+CUSTOM_OWN = "example.com/verif-finalizer"
+
+
+def near_misses(own: str) -> list[str]:
+    """Foreign finalizers that are NOT the framework's: names that look like it (the unprefixed marker of old
+    kopf versions, prefix/suffix/case variants, the domain alone) and, for a configured name, kopf's default name."""
+    dom, _, nm = own.rpartition("/")
+    out = [nm, f"{dom}/", own + "2", own[:-1], own.lower(), own.upper(), "x" + own, f"{dom}/x{nm}",
+           "KopfFinalizerMarker", "kopf.zalando.org/kopffinalizermarker"]
+    if own != DEFAULT_OWN:
+        out.append(DEFAULT_OWN)
+    return [f for f in dict.fromkeys(out) if f != own]
+
+
+DIFF_KINDS = ["spec", "label", "annotation"]
+
+
+def make_body(settings, marked: bool, blocked: bool, old_absent: bool, diff: bool, variant: int,
+              diff_kind: str = "spec") -> dict:
+    """variant: 0 plain; 3 foreign finalizers on both sides of the own one + inessential noise (status, system
+    metadata, kopf's own annotations); 4 an object whose whole essence is empty; 5 look-alike foreign finalizers
+    (`near_misses`) + noise. `diff_kind`: where the essential difference to the stored state is (if `diff`)."""
+    import json
     fin = settings.persistence.finalizer
-    body: dict[str, Any] = {"apiVersion": "kopf.dev/v1", "kind": "KopfExample",
-                            "metadata": {"name": "obj", "namespace": "ns", "uid": "u1", "resourceVersion": "5"},
-                            "spec": {"field": "new" if diff else "same", "n": variant}}
+    meta: dict[str, Any] = {"name": "obj", "namespace": "ns", "uid": "u1", "resourceVersion": "5"}
+    body: dict[str, Any] = {"apiVersion": "kopf.dev/v1", "kind": "KopfExample", "metadata": meta,
+                            "spec": {"field": "same", "n": variant}}
     if variant == 4:
         # an object whose whole essence is empty: its last-handled state is stored as `{}` (present but falsy)
-        body = {"apiVersion": "kopf.dev/v1", "kind": "KopfExample",
-                "metadata": {"name": "obj", "namespace": "ns", "uid": "u1", "resourceVersion": "5"}}
-        if diff:
-            body["spec"] = {"field": "new"}
-    fins = (["other.io/a"] if variant & 1 else []) + ([fin] if blocked else []) + (["other.io/b"] if variant & 2 else [])
+        del body["spec"]
+    if diff and (diff_kind == "spec" or variant == 4):
+        body["spec"] = dict(body.get("spec", {}), field="new")
+    elif diff and diff_kind == "label":
+        meta["labels"] = {"changed": "yes"}
+    elif diff and diff_kind == "annotation":
+        meta.setdefault("annotations", {})["example.com/changed"] = "yes"
+    if variant == 5:
+        nm = near_misses(fin)
+        fins = nm[:len(nm) // 2] + ([fin] if blocked else []) + nm[len(nm) // 2:]
+    elif variant & 1:
+        fins = ["other.io/a"] + ([fin] if blocked else []) + (["other.io/b"] if variant & 2 else [])
+    else:
+        fins = [fin] if blocked else []
     if fins:
-        body["metadata"]["finalizers"] = fins
+        meta["finalizers"] = fins
     if marked:
-        body["metadata"]["deletionTimestamp"] = "2020-01-01T00:00:00Z"
+        meta["deletionTimestamp"] = "2020-01-01T00:00:00Z"
+    if variant in (3, 5):
+        # nothing of this is essential: the status stanza, system metadata, the framework's own annotations
+        body["status"] = {"phase": "Running", "kopf": {"progress": {}}, "observedGeneration": 7}
+        meta.update({"generation": 7, "creationTimestamp": "2019-12-31T00:00:00Z", "selfLink": "/x",
+                     "managedFields": [{"manager": "kubectl", "operation": "Update"}]})
+        meta.setdefault("annotations", {}).update({
+            "kopf.zalando.org/touch-dummy": "2020-01-01T00:00:00.000000",
+            "kubectl.kubernetes.io/last-applied-configuration": "{}"})
     if not old_absent:
-        import json
         essence = {"spec": {"field": "same", "n": variant}} if variant != 4 else {}
-        body["metadata"].setdefault("annotations", {})["kopf.zalando.org/last-handled-configuration"] = json.dumps(essence) + "\n"
+        meta.setdefault("annotations", {})["kopf.zalando.org/last-handled-configuration"] = json.dumps(essence) + "\n"
     return body
+
+
+def settings_variants(configuration: Any) -> list[tuple[str, Any]]:
+    """kopf's default finalizer name and a configured one (`settings.persistence.finalizer`)."""
+    default = configuration.OperatorSettings()
+    custom = configuration.OperatorSettings()
+    custom.persistence.finalizer = CUSTOM_OWN
+    if default.persistence.finalizer == CUSTOM_OWN:
+        raise RuntimeError("the configured finalizer name must differ from the default one")
+    return [("default", default), ("configured", custom)]
 
 
 def run(ctx: Ctx) -> None:
@@ -334,13 +410,25 @@ def _shape(h: Any) -> dict:
             "deleted": bool(h.deleted), "needs_change": bool(h.field_needs_change)}
 
 
+COMPOSITION_PASSES = [
+    # (name, through process_resource_causes?, the deletion handler is optional?)
+    ("detect+handle", False, False),      # `_detect_causes` + `process_changing_cause`, as the model's `invocableS`
+    ("whole-pass", True, False),          # `process_resource_causes`: + the finalizer cycles (`invocableRC … true`)
+    ("whole-pass/optional", True, True),  # … with an optional deletion handler: no finalizer required (`… false`)
+]
+
+
 async def _composition(ctx: Ctx, env: dict, settings: Any, resource: Any, logger: Any,
-                       greqs: list, gimpl: list, ginp: list) -> None:
-    """Real body -> real `_detect_causes` -> real `process_changing_cause`, with one handler of every kind built
-    by the real `kopf.on` decorators, each creating sub-handlers in the three ways kopf offers. Observed: which
-    functions were called. Oracle (strict, both ways): a sub-handler runs iff its parent runs; nothing of
-    creation/update/field parentage on a marked object; deletion parentage only marked + held; nothing in
-    gone/released/no-op events."""
+                       greqs: list, gimpl: list, ginp: list, sname: str = "default",
+                       whole: bool = False, optional: bool = False, pass_name: str = "detect+handle") -> None:
+    """Real body -> real `_detect_causes` -> real `process_changing_cause` (or, `whole`: the real
+    `process_resource_causes`, which does both and the finalizer cycles in between), with one handler of every kind
+    built by the real `kopf.on` decorators, each creating sub-handlers in the four ways kopf offers. Observed:
+    which functions were called. Oracle (strict, from the statement): a handler with a cause kind runs only for
+    the event the precedence list gives that kind to; resume handlers only at first sight, never in a creation,
+    on a marked object only when opted in; field handlers only in creations/updates; a sub-handler runs iff its
+    parent runs; nothing of creation/update/field parentage on a marked object; deletion parentage only marked +
+    held by the configured finalizer; nothing in gone/released/no-op events."""
     import kopf
     from kopf._core.actions import lifecycles
     registries, processing, inventory, indexing = env["registries"], env["processing"], env["inventory"], env["indexing"]
@@ -348,6 +436,7 @@ async def _composition(ctx: Ctx, env: dict, settings: Any, resource: Any, logger
     called: list[str] = []
     sub_shapes: dict[str, dict] = {}
     registry = registries.OperatorRegistry()
+    HOWS = ("dec", "reg", "fn", "lst")
 
     def mk_parent(pid: str):
         async def sub_reg(**_: Any) -> None:
@@ -355,6 +444,9 @@ async def _composition(ctx: Ctx, env: dict, settings: Any, resource: Any, logger
 
         async def sub_fn(**_: Any) -> None:
             called.append(f"{pid}/fn")
+
+        async def sub_lst(**_: Any) -> None:
+            called.append(f"{pid}/lst")
 
         async def parent(**_: Any) -> None:
             called.append(pid)
@@ -368,13 +460,14 @@ async def _composition(ctx: Ctx, env: dict, settings: Any, resource: Any, logger
             for h in subhandling.subregistry_var.get()._handlers:
                 sub_shapes[f"{pid}/{str(h.id).rsplit('/', 1)[-1]}"] = _shape(h)
             await kopf.execute()                    # the accumulated (inheriting) sub-handlers
-            await kopf.execute(fns={"fn": sub_fn})   # the plain ones
+            await kopf.execute(fns={"fn": sub_fn})   # the plain ones, given as a mapping id -> function
+            await kopf.execute(fns=[sub_lst])        # … and as a list of functions
         parent.__name__ = parent.__qualname__ = pid
         return parent
 
     kopf.on.create("kopfexamples", id="c", registry=registry)(mk_parent("c"))
     kopf.on.update("kopfexamples", id="u", registry=registry)(mk_parent("u"))
-    kopf.on.delete("kopfexamples", id="d", registry=registry)(mk_parent("d"))
+    kopf.on.delete("kopfexamples", id="d", registry=registry, optional=optional)(mk_parent("d"))
     kopf.on.resume("kopfexamples", id="r", registry=registry)(mk_parent("r"))
     kopf.on.resume("kopfexamples", id="rd", deleted=True, registry=registry)(mk_parent("rd"))
     kopf.on.field("kopfexamples", id="f", field="spec.field", registry=registry)(mk_parent("f"))
@@ -388,28 +481,40 @@ async def _composition(ctx: Ctx, env: dict, settings: Any, resource: Any, logger
         ginp.append({"decorated": pid, "shape": _shape(h)})
     indexers = indexing.OperatorIndexers()
     own = settings.persistence.finalizer
+    must_block = not optional       # a mandatory deletion handler without filters: the finalizer is required
     sreqs, simpl, sinp = [], [], []
-    for ev_type, marked, blocked, old_absent, diff, noticed, handled_once in itertools.product(
+    for ev_type, marked, blocked, old_absent, diff, noticed, handled_once, variant in itertools.product(
             ["DELETED", "MODIFIED", None], [False, True], [False, True], [False, True], [False, True],
-            [False, True], [False, True]):
-        body = make_body(settings, marked, blocked, old_absent, diff, 0)
+            [False, True], [False, True], [0, 5]):
+        body = make_body(settings, marked, blocked, old_absent, diff, variant)
         memory = inventory.ResourceMemory(noticed_by_listing=noticed)
         memory.fully_handled_once = handled_once
-        cs = processing._detect_causes(indexers=indexers, registry=registry, settings=settings, resource=resource,
-                                       raw_event={"type": ev_type, "object": body}, body=bodies.Body(body),
-                                       patch=patches.Patch(), memory=memory, local_logger=logger, event_logger=logger)
-        cause = cs.changing_cause
         del called[:]
-        await processing.process_changing_cause(lifecycle=lifecycles.all_at_once, registry=registry, settings=settings,
-                                                memory=memory, cause=cause)
+        if whole:
+            patch = patches.Patch()
+            await processing.process_resource_causes(
+                lifecycle=lifecycles.all_at_once, indexers=indexers, registry=registry, settings=settings,
+                resource=resource, raw_event={"type": ev_type, "object": body}, body=bodies.Body(body), patch=patch,
+                memory=memory, local_logger=logger, event_logger=logger, stream_pressure=None, operator_paused=None,
+                consistency_time=None)
+        else:
+            cs = processing._detect_causes(indexers=indexers, registry=registry, settings=settings, resource=resource,
+                                           raw_event={"type": ev_type, "object": body}, body=bodies.Body(body),
+                                           patch=patches.Patch(), memory=memory, local_logger=logger, event_logger=logger)
+            await processing.process_changing_cause(lifecycle=lifecycles.all_at_once, registry=registry, settings=settings,
+                                                    memory=memory, cause=cs.changing_cause)
         ran = list(called)
-        six = [ev_type == "DELETED", marked, blocked, old_absent, bool(cause.diff), noticed and not handled_once]
-        reason = cause.reason.value
-        ctx.case(key={"comp": six, "ran": sorted(ran)}, nontrivial=True,
-                 sample={"six": six, "reason": reason, "ran": sorted(ran)} if marked and blocked and ran and noticed else None)
-        ctx.count("composition_reason", reason)
-        rep = {"six": six, "event_type": ev_type, "body": body, "reason": reason, "ran": sorted(ran)}
+        # the six facts, by construction (none read back from the implementation)
+        six = [ev_type == "DELETED", marked, blocked, old_absent, diff and not old_absent, noticed and not handled_once]
+        reason = oracle_reason(*six)
+        ctx.case(key={"comp": six, "pass": pass_name, "ran": sorted(ran)}, nontrivial=True,
+                 sample={"six": six, "pass": pass_name, "reason": reason, "ran": sorted(ran)}
+                 if marked and blocked and ran and noticed and sname == "default" and variant == 0 else None)
+        ctx.count("composition_reason", f"{pass_name}:{reason}")
+        rep = {"six": six, "event_type": ev_type, "body": body, "reason": reason, "ran": sorted(ran), "pass": pass_name,
+               "finalizer_setting": own, "deletion_handler_optional": optional}
         held = marked and own in (body["metadata"].get("finalizers") or [])
+        site = "process_resource_causes" if whole else "process_changing_cause"
         for hid in ran:
             pid = hid.split("/")[0]
             k = kind_of[pid]
@@ -422,24 +527,39 @@ async def _composition(ctx: Ctx, env: dict, settings: Any, resource: Any, logger
                 ctx.oracle_fail(f"{who} was invoked while the object was not marked for deletion or not held by the "
                                 "framework's finalizer", dict(rep, handler=hid),
                                 {"site": "process_changing_cause", "shape": "delete handler outside a held deletion"})
-            if oracle_reason(*six) in ("gone", "free", "noop"):
-                ctx.oracle_fail(f"{who} was invoked for a {oracle_reason(*six)} event", dict(rep, handler=hid),
+            if reason in ("gone", "free", "noop"):
+                ctx.oracle_fail(f"{who} was invoked for a {reason} event", dict(rep, handler=hid),
                                 {"site": "process_changing_cause", "shape": "handler in an informational cause"})
+            elif k in ("create", "update", "delete") and k != reason:
+                ctx.oracle_fail(f"{who} was invoked for an event that the precedence list classifies as {reason}",
+                                dict(rep, handler=hid), {"site": site, "shape": f"{k} handler in a {reason} cause"})
+            elif k == "resume" and (not six[5] or reason == "create" or (marked and pid == "r")):
+                why = ("although the object is not at its first sight" if not six[5] else
+                       "in a creation (creation never mixes with resuming)" if reason == "create" else
+                       "on an object marked for deletion without deleted=True")
+                ctx.oracle_fail(f"{who} was invoked {why}", dict(rep, handler=hid),
+                                {"site": site, "shape": "resume handler outside a first sight"})
+            elif k == "field" and reason not in ("create", "update"):
+                ctx.oracle_fail(f"{who} was invoked for a {reason} event (field handlers are for creations/updates)",
+                                dict(rep, handler=hid), {"site": site, "shape": f"field handler in a {reason} cause"})
             if hid != pid and pid not in ran:
                 ctx.oracle_fail(f"{who} ran although its parent did not", dict(rep, handler=hid),
                                 {"site": "subhandling.execute", "shape": "sub-handler without its parent"})
         for pid in kind_of:
-            for how in ("dec", "reg", "fn"):
+            for how in HOWS:
                 hid = f"{pid}/{how}"
                 if pid in ran and hid not in ran:
                     ctx.oracle_fail(f"the {kind_of[pid]} handler {pid} ran{' on an object marked for deletion' if marked else ''}, "
                                     f"its sub-handler {hid} was not selected: the parent finishes without the sub-handler's work",
                                     dict(rep, handler=hid),
                                     {"site": "ChangingRegistry.iter_handlers", "shape": f"sub-handler of a {kind_of[pid]} handler not run"})
-                sreqs.append(["C05.sub", _shape(parents[pid]), "plain" if how == "fn" else "inherit", six])
+                kind = "inherit" if how in ("dec", "reg") else "plain"
+                sreqs.append(["C05.subRC", _shape(parents[pid]), kind, six, must_block] if whole else
+                             ["C05.sub", _shape(parents[pid]), kind, six])
                 simpl.append({"parent": pid in ran, "sub": hid in ran,
-                              "needs_change": sub_shapes.get(hid, {}).get("needs_change") if how != "fn" else False})
-                sinp.append({"parent": pid, "sub": hid, "six": six, "event_type": ev_type})
+                              "needs_change": sub_shapes.get(hid, {}).get("needs_change") if kind == "inherit" else False})
+                sinp.append({"parent": pid, "sub": hid, "six": six, "event_type": ev_type, "pass": pass_name,
+                             "finalizer_setting": sname, "variant": variant})
     try:
         outs = ctx.driver.ask(sreqs)
     except leanio.LeanError as e:
@@ -449,12 +569,12 @@ async def _composition(ctx: Ctx, env: dict, settings: Any, resource: Any, logger
         model = out[1] if out and out[0] == "ok" else out
         if isinstance(model, dict):
             if inp["parent"] == "f":      # the field filter (C15's subject) also decides for the field handler
-                model = dict(model, parent=impl["parent"], sub=impl["parent"] and model["sub_gate"])
+                model = dict(model, parent=impl["parent"] and model["parent"], sub=impl["parent"] and model["sub"])
             model = {k: model[k] for k in ("parent", "sub", "needs_change")}
             if impl["needs_change"] is None:   # the parent never ran: no sub-handler was built
                 impl = dict(impl, needs_change=model["needs_change"])
         ctx.compare("C05 sub-handlers", impl, model, inp)
-    ctx.traces += len(sreqs) // 18
+    ctx.traces += len(sreqs) // (len(kind_of) * len(HOWS))
 
 
 async def _run(ctx: Ctx) -> None:
@@ -482,42 +602,53 @@ async def _run(ctx: Ctx) -> None:
     indexers = indexing.OperatorIndexers()
 
     # ---- part 1: the decision table through the real _detect_causes --------------------------
+    # The six facts are CONSTRUCTED here (event type, deletion mark, which finalizers the body carries under
+    # which configured name, whether a last-handled state is stored, where the body differs from it, the two
+    # memory flags); nothing of them is read back from the implementation.
     requests, impl_out, inputs = [], [], []
-    for ev_type, marked, blocked, old_absent, diff, noticed, handled_once, variant in itertools.product(
-            ["DELETED", "MODIFIED", "ADDED", None], [False, True], [False, True], [False, True], [False, True],
-            [False, True], [False, True], [0, 3, 4]):
-        body = make_body(settings, marked, blocked, old_absent, diff, variant)
-        raw_event = {"type": ev_type, "object": body}
-        memory = inventory.ResourceMemory(noticed_by_listing=noticed)
-        memory.fully_handled_once = handled_once
-        patch = patches.Patch()
-        cs = processing._detect_causes(indexers=indexers, registry=registry, settings=settings, resource=resource,
-                                       raw_event=raw_event, body=bodies.Body(body), patch=patch, memory=memory,
-                                       local_logger=logger, event_logger=logger)
-        cause = cs.changing_cause
-        deleted = ev_type == "DELETED"
-        initial = noticed and not handled_once
-        six = [deleted, marked, blocked, old_absent, (diff and not old_absent), initial]
-        # NB: with no stored essence, kopf diffs None against the new essence: the diff is non-empty;
-        # the decision does not read it in that case (old is None decides first).
-        six_real = [deleted, marked, blocked, old_absent, bool(cause.diff), initial]
-        got = {"reason": cause.reason.value, "initial": bool(cause.initial)}
-        want = oracle_reason(*six_real)
-        key = {"in": six_real, "out": got}
-        ctx.case(key=key, nontrivial=True, sample={"event_type": ev_type, "six": six_real, "impl": got} if variant == 0 and noticed else None)
-        ctx.count("reason", got["reason"])
-        if got["reason"] != want:
-            ctx.oracle_fail(f"event classified as {got['reason']}, the property's precedence gives {want}",
-                            {"six": six_real, "event_type": ev_type, "body": body, "impl": got},
-                            {"site": "detect_changing_cause", "want": want, "got": got["reason"]})
-        if got["reason"] == "create" and got["initial"]:
-            ctx.oracle_fail("creation cause carries initial=True (resume handlers would mix into creation)",
-                            {"six": six_real, "event_type": ev_type, "body": body}, {"site": "detect_changing_cause", "shape": "create+initial"})
-        if bool(cause.deleted) != marked:
-            ctx.oracle_fail("cause.deleted disagrees with the deletion mark", {"body": body}, {"site": "ChangingCause.deleted"})
-        requests.append(["C05.detect", six_real])
-        impl_out.append(got)
-        inputs.append({"event_type": ev_type, "six": six_real})
+    for (sname, stg), ev_type, marked, blocked, old_absent, diff, noticed, handled_once, variant in itertools.product(
+            settings_variants(configuration), ["DELETED", "MODIFIED", "ADDED", None], [False, True], [False, True],
+            [False, True], [False, True], [False, True], [False, True], [0, 3, 4, 5]):
+        for diff_kind in (DIFF_KINDS if diff and not old_absent and variant != 4 else ["spec"]):
+            body = make_body(stg, marked, blocked, old_absent, diff, variant, diff_kind)
+            raw_event = {"type": ev_type, "object": body}
+            memory = inventory.ResourceMemory(noticed_by_listing=noticed)
+            memory.fully_handled_once = handled_once
+            patch = patches.Patch()
+            cs = processing._detect_causes(indexers=indexers, registry=registry, settings=stg, resource=resource,
+                                           raw_event=raw_event, body=bodies.Body(body), patch=patch, memory=memory,
+                                           local_logger=logger, event_logger=logger)
+            cause = cs.changing_cause
+            deleted = ev_type == "DELETED"
+            initial = noticed and not handled_once
+            # NB: with no stored essence, kopf diffs None against the new essence: its diff is non-empty;
+            # the decision does not read it in that case (`old is None` decides first).
+            six = [deleted, marked, blocked, old_absent, (diff and not old_absent), initial]
+            got = {"reason": cause.reason.value, "initial": bool(cause.initial)}
+            want = oracle_reason(*six)
+            key = {"in": six, "out": got}
+            rep = {"six": six, "event_type": ev_type, "body": body, "impl": got, "finalizer_setting": stg.persistence.finalizer}
+            ctx.case(key=key, nontrivial=True, sample={"event_type": ev_type, "six": six, "impl": got} if variant == 0 and noticed and sname == "default" else None)
+            ctx.count("reason", got["reason"])
+            ctx.count("detect_input", f"finalizer={sname}:variant={variant}:diff={diff_kind if six[4] else '-'}")
+            if got["reason"] != want:
+                ctx.oracle_fail(f"event classified as {got['reason']}, the property's precedence gives {want}", rep,
+                                {"site": "detect_changing_cause", "want": want, "got": got["reason"]})
+            if not old_absent and bool(cause.diff) != six[4]:
+                ctx.oracle_fail(f"the essential difference to the last-handled state is {'missed' if six[4] else 'invented'} "
+                                f"(difference in: {diff_kind if six[4] else 'status/system metadata/own annotations only'})",
+                                rep, {"site": "processing._detect_causes", "shape": "essential difference"})
+            if got["reason"] == "create" and got["initial"]:
+                ctx.oracle_fail("creation cause carries initial=True (resume handlers would mix into creation)",
+                                rep, {"site": "detect_changing_cause", "shape": "create+initial"})
+            if got["reason"] != "create" and got["initial"] != initial:
+                ctx.oracle_fail("the cause's first-sight flag is not 'noticed by the listing and not fully handled yet'",
+                                rep, {"site": "processing._detect_causes", "shape": "first-sight flag"})
+            if bool(cause.deleted) != marked:
+                ctx.oracle_fail("cause.deleted disagrees with the deletion mark", {"body": body}, {"site": "ChangingCause.deleted"})
+            requests.append(["C05.detect", six])
+            impl_out.append(got)
+            inputs.append({"event_type": ev_type, "six": six, "finalizer_setting": sname, "variant": variant, "diff_kind": diff_kind})
 
     # ---- part 2: the handler gate through the real registry ----------------------------------
     # the full finite space of what the gate reads: reason x initial x deleted x field_needs_change (None/False/
@@ -538,7 +669,10 @@ async def _run(ctx: Ctx) -> None:
             _gate_case(ctx, env, mk_handler, resource, indexers, logger, settings, kind, c, greqs, gimpl, ginp)
 
     # ---- part 3: real decorators, real sub-handlers, real detection + real handling pass ------------
-    await _composition(ctx, env, settings, resource, logger, greqs, gimpl, ginp)
+    for sname, stg in settings_variants(configuration):
+        for pass_name, whole, optional in COMPOSITION_PASSES:
+            await _composition(ctx, env, stg, resource, logger, greqs, gimpl, ginp, sname=sname, whole=whole,
+                               optional=optional, pass_name=pass_name)
 
     # ---- the tie: same inputs through the Lean model ------------------------------------------
     try:
@@ -583,6 +717,7 @@ def closed_loop(ctx: Ctx) -> None:
     scenarios += [c02.gen_supersede(ctx.rng, 32_000_000 + ctx.seed * 100000 + i) for i in range(n // 2)]
     scenarios += [gen_field_delete(ctx.rng, 33_000_000 + ctx.seed * 100000 + i) for i in range(max(12, n // 3))]
     scenarios += [gen_sub_delete(ctx.rng, 34_000_000 + ctx.seed * 100000 + i) for i in range(max(16, n // 3))]
+    scenarios += [gen_histories(ctx.rng, 35_000_000 + ctx.seed * 100000 + i) for i in range(max(48, n // 2))]
     corpus = [d["scenario"] for _, d in __import__("harness.core", fromlist=["load_corpus"]).load_corpus("C05")
               if d.get("kind") == "scenario"]
     scenarios = corpus + scenarios     # corpus first
@@ -590,10 +725,20 @@ def closed_loop(ctx: Ctx) -> None:
     for sc, res in zip(scenarios, pool.run_many(scenarios, wall=40.0)):
         if "trace" not in res or res["trace"].get("sim_error"):
             raise RuntimeError(f"simulation failed: {str(res)[:1500]}")
-        tr = res["trace"]
         ctx.traces += 1
+        judge(ctx, sc, res["trace"])
+
+
+def judge(ctx: Any, sc: dict, tr: dict) -> None:
+    """All closed-loop oracle clauses over one trace."""
+    import json as _json
+    if True:
         _call_clauses(ctx, sc, tr)
         _sub_clauses(ctx, sc, tr)
+        _body_clauses(ctx, sc, tr)
+        own = own_of(sc)
+        ctx.count("closed_loop_finalizer_setting", "default" if own == DEFAULT_OWN else "configured")
+        ctx.count("closed_loop_generator", str(sc.get("c05", "c14/c02")))
         first_by_listing: dict[tuple, bool] = {}
         ended: set[tuple] = set()
         for cyc in tr["cycles"]:
@@ -604,7 +749,8 @@ def closed_loop(ctx: Ctx) -> None:
                 continue
             meta = cyc["body"].get("metadata", {})
             marked = bool(meta.get("deletionTimestamp"))
-            blocked = "kopf.zalando.org/KopfFinalizerMarker" in (meta.get("finalizers") or [])
+            blocked = own in (meta.get("finalizers") or [])
+            foreign = [f for f in (meta.get("finalizers") or []) if f != own]
             raw = (meta.get("annotations") or {}).get("kopf.zalando.org/last-handled-configuration")
             old_absent = raw is None
             try:
@@ -616,14 +762,21 @@ def closed_loop(ctx: Ctx) -> None:
             got = cause["reason"]
             ctx.case(key={"loop": [cyc["event_type"] is None, marked, blocked, old_absent, diff, initial, got]}, nontrivial=True)
             ctx.count("closed_loop_reason", got)
+            ctx.count("closed_loop_input", f"{'marked' if marked else 'unmarked'}:{'held' if blocked else 'not-held'}:"
+                                           f"{'foreign-finalizers' if foreign else 'no-foreign'}:"
+                                           f"{'listed' if cyc['event_type'] is None else cyc['event_type']}:"
+                                           f"{'first-sight' if initial else 'seen'}")
             if got != want:
                 ctx.oracle_fail(f"closed loop: event classified as {got}, the property's precedence gives {want} "
                                 f"(first sight={initial}, essential difference={diff})",
                                 {"scenario": sc, "cycle": cyc["i"]},
                                 {"site": "processing._detect_causes", "shape": "closed-loop cause", "want": want, "got": got})
             if cause["initial"] and not initial and got != "create":
-                ctx.oracle_fail("closed loop: the cause carries first-sight although the object was seen and a handling cycle "
-                                "has ended for it in this process (resume handlers would be mixed in)",
+                ctx.oracle_fail("closed loop: the cause carries first-sight although the object "
+                                + ("first appeared through the watch, not in a listing that started the process's view of it"
+                                   if not first_by_listing[key] else
+                                   "has been through a whole handling cycle in this process") +
+                                " (resume handlers would be mixed in)",
                                 {"scenario": sc, "cycle": cyc["i"]},
                                 {"site": "processing._detect_causes", "shape": "stale first-sight flag"})
             p = cyc.get("pcc")
@@ -662,6 +815,145 @@ def gen_field_delete(rng: Any, i: int) -> dict:
             "settings": {"execution.default_backoff": 1.0}, "end": t + 25.0}
 
 
+def gen_histories(rng: Any, i: int) -> dict:
+    """Object histories the other generators never produce (white-box review, review/wb/C05):
+    * a configured finalizer name (`settings.persistence.finalizer`), kopf's default name then being a FOREIGN one;
+    * foreign finalizers on the object, among them look-alikes of the framework's (`near_misses`): the object lingers
+      marked-but-released after the framework's finalizer is gone (cause: released), is edited while lingering, and
+      the framework's finalizer is stripped by force while deletion handlers retry;
+    * objects that appear WHILE the operator runs carrying a stored last-handled state (restored from a backup,
+      copied with their annotations), and objects created while the operator is down;
+    * re-listings / reconnects while the first handling of an object seen through the watch is not over;
+    * changes made inside a gap of the watch (the re-listing brings them), also next to daemons / timers (kopf then
+      classifies from the daemons' live view of the object instead of the event's)."""
+    own = rng.choice([DEFAULT_OWN, DEFAULT_OWN, CUSTOM_OWN, "kopf.zalando.org/KopfFinalizerMarker2"])
+    settings: dict[str, Any] = {"execution.default_backoff": 1.0, "watching.reconnect_backoff": 0.5}
+    if own != DEFAULT_OWN:
+        settings["persistence.finalizer"] = own
+    foreign_pool = near_misses(own) + ["other.io/hold"]
+    foreign = rng.sample(foreign_pool, rng.choice([0, 0, 1, 1, 2]))
+    mk_script = lambda: [rng.choice(["ok", "ok", ["temp", 1.0], ["temp", 2.0], ["sleep", 1.0, "ok"]])]   # noqa: E731
+    handlers: list[dict] = [
+        {"kind": "delete", "id": "d0", "opts": {"optional": rng.random() < 0.5}, "script": mk_script(), "default": "ok"},
+        {"kind": "resume", "id": "r0", "opts": {"deleted": True}, "script": mk_script(), "default": "ok"},
+    ]
+    if rng.random() < 0.7:
+        handlers.append({"kind": "create", "id": "c0", "script": [rng.choice(["ok", ["temp", 1.0], ["temp", 2.0], ["sleep", 1.5, "ok"]])],
+                         "default": "ok"})
+    if rng.random() < 0.7:
+        handlers.append({"kind": "update", "id": "u0", "script": mk_script(), "default": "ok"})
+    if rng.random() < 0.4:
+        handlers.append({"kind": "resume", "id": "r1", "opts": {}, "script": mk_script(), "default": "ok"})
+    if rng.random() < 0.3:
+        handlers.append({"kind": "field", "id": "f0", "opts": {"field": "spec.x"}, "script": ["ok"], "default": "ok"})
+    if rng.random() < 0.3:
+        handlers.append({"kind": "delete", "id": "d1", "opts": {}, "script": ["ok"], "default": "ok"})
+    bg = rng.choice([None, None, "daemon", "timer"])
+    if bg == "daemon":
+        handlers.append({"kind": "daemon", "id": "dm", "daemon": {"mode": "obey", "poll": 0.5}})
+    elif bg == "timer":
+        handlers.append({"kind": "timer", "id": "tm", "opts": {"interval": rng.choice([1.0, 2.0])}})
+    rng.shuffle(handlers)
+
+    def body(x: int, stored: Any = None) -> dict:
+        meta: dict[str, Any] = {"labels": {"l": "1"}}
+        if foreign:
+            meta["finalizers"] = list(foreign)
+        if stored is not None:     # a last-handled state comes with the object (restored / copied)
+            import json
+            ess = {"spec": {"x": stored, "y": 0}, "metadata": {"labels": {"l": "1"}}}
+            meta["annotations"] = {"kopf.zalando.org/last-handled-configuration": json.dumps(ess, separators=(",", ":")) + "\n"}
+        return {"spec": {"x": x, "y": 0}, "metadata": meta}
+
+    def gap(t: float, *ops: list) -> list[list]:
+        """ops placed inside a gap of the watch: the stream ends with "410 Gone", the ops follow within the
+        reconnect back-off, and it is the fresh LISTING (events without a type) that brings their news."""
+        return [[t, "compact"], [t, "break", "410"]] + [[t + 0.125 * (k + 1), *op] for k, op in enumerate(ops)]
+
+    def relist(t: float) -> list[list]:
+        return rng.choice([[[t, "compact"], [t, "break", "410"]], [[t, "break", "eof"]], [[t, "break", "conn"]]])
+
+    tl: list[list] = []
+    objects: list[dict] = []
+    mode = rng.choice(["restored", "restored", "created-while-down", "slow-first-handling", "foreign-held", "foreign-held",
+                       "stripped", "gap"])
+    t = 1.0
+    if mode == "restored":
+        stored = rng.choice([0, 0, 5])                      # equal to the object's state, or not
+        tl.append([t, "create", "a", body(0, stored)])
+        t += rng.choice([0.25, 1.0, 3.0])
+        tl += relist(t)
+        t += rng.choice([1.0, 2.0])
+        tl.append([t, rng.choice(["edit", "delete", "edit"]), "a"])
+        if tl[-1][1] == "edit":
+            tl[-1].append({"spec": {"x": rng.choice([1, 5])}})
+        if rng.random() < 0.5:
+            t += rng.choice([0.5, 2.0])
+            tl += relist(t)
+    elif mode == "created-while-down":
+        tl += [[t, rng.choice(["stop", "kill"])], [t + 0.5, "create", "a", body(0, rng.choice([None, None, 0]))]]
+        if rng.random() < 0.3:
+            tl.append([t + 0.75, "delete", "a"])
+        tl.append([t + 1.5, "start"])
+        t += 1.5 + rng.choice([0.25, 1.0, 3.0])
+        tl += relist(t)
+        if rng.random() < 0.5:
+            tl.append([t + 2.0, "edit", "a", {"spec": {"x": 3}}])
+    elif mode == "slow-first-handling":
+        tl.append([t, "create", "a", body(0)])
+        t += rng.choice([0.25, 0.5, 1.0])
+        tl += relist(t)
+        t += rng.choice([0.25, 0.75, 1.5])
+        tl.append([t, rng.choice(["delete", "delete", "edit"]), "a"])
+        if tl[-1][1] == "edit":
+            tl[-1].append({"spec": {"x": 2}})
+        if rng.random() < 0.5:
+            t += rng.choice([0.25, 1.0])
+            tl += relist(t)
+    elif mode == "foreign-held":
+        if not foreign:
+            foreign.append(rng.choice(foreign_pool))
+        if rng.random() < 0.5:
+            objects.append({"name": "a", "body": body(0, rng.choice([None, 0]))})
+        else:
+            tl.append([t, "create", "a", body(0)])
+        t += rng.choice([1.0, 4.0])
+        tl.append([t, "delete", "a"])
+        t += rng.choice([2.0, 6.0])
+        tl.append([t, "edit", "a", {"spec": {"x": 9}}])            # edited while lingering
+        if rng.random() < 0.5:
+            tl += relist(t + 1.0)
+        if rng.random() < 0.5:
+            tl += [[t + 2.0, rng.choice(["stop", "kill"])], [t + 3.0, "start"]]
+        t += 6.0
+        tl.append([t, "edit", "a", {"metadata": {"finalizers": []}}])   # the others let it go
+    elif mode == "stripped":
+        tl.append([t, "create", "a", body(0)])
+        t += 4.0
+        tl.append([t, "delete", "a"])
+        t += rng.choice([0.25, 0.75, 1.5])
+        tl.append([t, "edit", "a", {"metadata": {"finalizers": list(foreign)}}])   # the framework's finalizer removed by force
+        if foreign:
+            tl.append([t + 5.0, "edit", "a", {"metadata": {"finalizers": []}}])
+    else:   # gap
+        objects.append({"name": "a", "body": body(0, 0)})
+        tl.append([t, "create", "b", body(0)])
+        t += 5.0
+        what = rng.choice(["delete", "edit", "edit+delete", "create"])
+        ops = {"delete": [["delete", "a"]], "edit": [["edit", "a", {"spec": {"x": 4}}]],
+               "edit+delete": [["edit", "b", {"spec": {"x": 4}}], ["delete", "b"]],
+               "create": [["create", "c", body(0, rng.choice([None, 0]))], ["delete", "a"]]}[what]
+        tl += gap(t, *ops)
+        t += 4.0
+        if rng.random() < 0.5:
+            tl += gap(t, ["edit", "a", {"spec": {"x": 6}}], ["edit", "b", {"metadata": {"labels": {"l": "2"}}}])
+    sc = {"seed": i, "c05": "histories:" + mode, "lifecycle": rng.choice(["asap", "one_by_one", "all_at_once", None]),
+          "handlers": handlers, "timeline": sorted(tl, key=lambda e: e[0]), "settings": settings, "end": t + 30.0}
+    if objects:
+        sc["objects"] = objects
+    return sc
+
+
 def gen_sub_delete(rng: Any, i: int) -> dict:
     """A deletion handler with two sub-handlers (the regression of /repo 345a874, repaired by 17e5c42: they were
     never selected, the parent finished at once and the object was released without their work), next to
@@ -682,6 +974,9 @@ def gen_sub_delete(rng: Any, i: int) -> dict:
                          "sub": subs(1)})
     if rng.random() < 0.3:
         handlers.append({"kind": "delete", "id": "d1", "opts": {}, "script": ["ok"], "default": "ok"})
+    for h in handlers:     # how the parent makes its sub-handlers (observe._make_plain): explicit kopf.execute(fns=…), or
+        if h.get("sub"):   # the inheriting, implicitly executed @kopf.subhandler / kopf.register
+            h["sub_mode"] = rng.choice(["execute", "execute", "decorator", "register", "decorator_execute"])
     rng.shuffle(handlers)
     tl: list[list] = [[1.0, "create", "a", {"spec": {"x": 0, "y": 0}}]]
     t = rng.choice([1.015625, 1.5, 6.0, 6.0, 8.0])
@@ -700,20 +995,52 @@ def gen_sub_delete(rng: Any, i: int) -> dict:
             "handlers": handlers, "timeline": tl, "settings": {"execution.default_backoff": 1.0}, "end": t + 30.0}
 
 
-OWN = "kopf.zalando.org/KopfFinalizerMarker"
+def own_of(sc: dict) -> str:
+    """The framework's finalizer in this scenario: the configured name, or kopf's default."""
+    return (sc.get("settings") or {}).get("persistence.finalizer", DEFAULT_OWN)
 
 
 def _kind_clauses(ctx: Ctx, sc: dict, c: dict, k: str, who: str) -> None:
+    own = own_of(sc)
     if k in ("create", "update", "field") and c.get("marked"):
         ctx.oracle_fail(f"{who} was invoked on an object marked for deletion",
                         {"scenario": sc, "call": c}, {"site": "ChangingRegistry.iter_handlers", "shape": f"{k} handler on a marked object"})
-    if k == "delete" and not (c.get("marked") and OWN in (c.get("finalizers") or [])):
+    if k == "delete" and not (c.get("marked") and own in (c.get("finalizers") or [])):
         ctx.oracle_fail(f"{who} was invoked while the object was not marked for deletion "
-                        "or not held by the framework's finalizer",
+                        f"or not held by the framework's finalizer ({own})",
                         {"scenario": sc, "call": c}, {"site": "ChangingRegistry.iter_handlers", "shape": "delete handler outside a held deletion"})
     if k in ("create", "update", "delete", "resume", "field") and c.get("reason") in ("gone", "free", "noop"):
         ctx.oracle_fail(f"{who} invoked for a {c.get('reason')} event",
                         {"scenario": sc, "call": c}, {"site": "process_changing_cause", "shape": "handler in an informational cause"})
+    # handler kinds are exclusive: a handler with a cause kind runs for that cause only; a resume handler never
+    # in a creation; a field handler in creations/updates only
+    r = c.get("reason")
+    if (k in ("create", "update", "delete") and r != k) or (k == "resume" and r == "create") or \
+            (k == "field" and r not in ("create", "update")):
+        ctx.oracle_fail(f"{who} was invoked in a {r} cause",
+                        {"scenario": sc, "call": c}, {"site": "process_changing_cause", "shape": f"{k} handler in a {r} cause"})
+
+
+def _body_clauses(ctx: Ctx, sc: dict, tr: dict) -> None:
+    """The state a change handler is given is the state of the event being processed (the cause is classified
+    from that event's object; 'observe_at': body of every handler invocation vs. the object's state): same
+    version, same deletion mark, same finalizers."""
+    for cyc in tr["cycles"]:
+        meta = (cyc.get("body") or {}).get("metadata", {})
+        for inv in cyc.get("invoked") or []:
+            idx = inv.get("call")
+            if idx is None or idx >= len(tr["calls"]):
+                continue
+            c = tr["calls"][idx]
+            same = (c.get("rv") == meta.get("resourceVersion") and bool(c.get("marked")) == bool(meta.get("deletionTimestamp"))
+                    and list(c.get("finalizers") or []) == list(meta.get("finalizers") or []))
+            ctx.count("closed_loop_handler_body", "the event's" if same else "ANOTHER")
+            if not same:
+                ctx.oracle_fail(f"handler {c['id']} was given another state of the object (version {c.get('rv')}, "
+                                f"marked={bool(c.get('marked'))}) than the event being processed carries (version "
+                                f"{meta.get('resourceVersion')}, marked={bool(meta.get('deletionTimestamp'))})",
+                                {"scenario": sc, "cycle": cyc["i"], "call": c},
+                                {"site": "process_resource_event", "shape": "handler body is not the event's"})
 
 
 def _call_clauses(ctx: Ctx, sc: dict, tr: dict) -> None:
@@ -748,17 +1075,29 @@ def _sub_clauses(ctx: Ctx, sc: dict, tr: dict) -> None:
     parents = [h for h in sc["handlers"] if h.get("sub") and h["kind"] in ("create", "update", "delete", "resume", "field")
                and _scripted_plainly(h)]
     final = ("ok", "perm")
+    cycle_of_call = {inv["call"]: (cyc, inv) for cyc in tr["cycles"] for inv in (cyc.get("invoked") or []) if inv.get("call") is not None}
     for h in parents:
-        for c in tr["calls"]:
+        implicit = h.get("sub_mode", "execute") != "execute"
+        for ci, c in enumerate(tr["calls"]):
             if c["id"] != h["id"] or c.get("outcome") != "ok" or c.get("t_end") is None:
                 continue
+            t_done = c["t_end"]
+            if implicit:
+                # the sub-handlers (made by @kopf.subhandler / kopf.register) run when the parent's function has returned:
+                # "the parent finished" = kopf recorded a final outcome without an error for it in that cycle
+                cyc, inv = cycle_of_call.get(ci, (None, None))
+                out = (((cyc or {}).get("pcc") or {}).get("outcomes") or {}).get((inv or {}).get("hid"))
+                if not out or not out.get("final") or out.get("error") or cyc.get("t1") is None:
+                    continue
+                t_done = cyc["t1"]
             for s in h["sub"]:
                 sid = f"{h['id']}/{s['id']}"
                 done = [x for x in tr["calls"] if x["id"] == sid and x.get("uid") == c.get("uid") and x.get("outcome") in final
-                        and x["t"] <= c["t_end"] and bool(x.get("marked")) == bool(c.get("marked"))]
-                ctx.case(key={"subdone": [h["kind"], bool(c.get("marked")), bool(done)]}, nontrivial=True)
+                        and x["t"] <= t_done and bool(x.get("marked")) == bool(c.get("marked"))]
+                ctx.case(key={"subdone": [h["kind"], bool(c.get("marked")), bool(done), implicit]}, nontrivial=True)
+                ctx.count("closed_loop_sub_mode", f"{h['kind']}:{h.get('sub_mode', 'execute')}:{'marked' if c.get('marked') else 'unmarked'}")
                 if not done:
-                    ctx.oracle_fail(f"the {h['kind']} handler {h['id']} finished at t={c['t_end']}"
+                    ctx.oracle_fail(f"the {h['kind']} handler {h['id']} finished at t={t_done}"
                                     f"{' on an object marked for deletion' if c.get('marked') else ''} although its sub-handler "
                                     f"{sid} never ran to an end: sub-handlers are of their parent's kind and run with it",
                                     {"scenario": sc, "call": c, "sub": sid},
@@ -771,7 +1110,7 @@ def _sub_clauses(ctx: Ctx, sc: dict, tr: dict) -> None:
         for v in versions:
             meta = (v.get("body") or {}).get("metadata", {})
             uid = meta.get("uid")
-            has_own = OWN in (meta.get("finalizers") or [])
+            has_own = own_of(sc) in (meta.get("finalizers") or [])
             if v.get("event") == "DELETED" or (not has_own and meta.get("deletionTimestamp")):
                 if uid in held_uids and uid not in released:     # (the DELETED record carries the last stored body)
                     released[uid] = v["t"]
